@@ -231,5 +231,187 @@ theorem checkedAdd_nat {w n : Nat} {a b : List Nat} (ha : WF w n a) (hb : WF w n
     · intro h; omega
     · intro _; simp
 
+/-! ### `ofNat` -/
+
+theorem WF_ofNat (w : Nat) : ∀ (n v : Nat), WF w n (ofNat w n v)
+  | 0, _ => WF_nil w
+  | n + 1, v => WF_cons.mpr ⟨Nat.mod_lt _ (B_pos w), WF_ofNat w n _⟩
+theorem U_ofNat (w : Nat) : ∀ (n v : Nat), U w (ofNat w n v) = v % M w n
+  | 0, v => by simp [ofNat, M_zero, Nat.mod_one]
+  | n + 1, v => by
+    simp only [ofNat, U_cons, U_ofNat w n, M_succ]
+    rw [Nat.mod_mul, Nat.add_comm]
+theorem eq_ofNat {w n : Nat} {x : List Nat} (hx : WF w n x) : x = ofNat w n (U w x) :=
+  U_injective hx (WF_ofNat w n _) (by rw [U_ofNat, Nat.mod_eq_of_lt (U_lt hx)])
+
+/-! ### the chunk loop of the general arm -/
+
+theorem chunkLoop_nil (w : Nat) (fs : Bool) (radix base power f : Nat) (out : List Nat) :
+    chunkLoop w fs radix base power f [] out = .ok (.ok out) := by cases f <;> rfl
+
+theorem chunkLoop_succ (w : Nat) (fs : Bool) (radix base power f : Nat) (rest out : List Nat)
+    (hne : rest ≠ []) :
+    chunkLoop w fs radix base power (f + 1) rest out =
+      if (mulDigitLoop w base out 0).2 ≠ 0 then
+        (if hasInvalid fs radix (rest.take power) then .ok (.err .invalidDigit)
+         else .ok (.err .posOverflow))
+      else
+        match accLoop w fs radix (rest.take power) 0 with
+        | .panic => .panic
+        | .ok none => .ok (.err .invalidDigit)
+        | .ok (some nn) =>
+          match UI.checkedAdd w (mulDigitLoop w base out 0).1 (fromDigit out.length nn) with
+          | none => .ok (.err .posOverflow)
+          | some o => chunkLoop w fs radix base power f (rest.drop power) o := by
+  cases rest with
+  | nil => exact absurd rfl hne
+  | cons b bs => rfl
+
+theorem pow_split {r p L : Nat} (h : p ≤ L) : r ^ L = r ^ p * r ^ (L - p) := by
+  rw [← Nat.pow_add]; congr 1; omega
+
+theorem chunkLoop_spec {w n : Nat} {fs : Bool} {radix p : Nat} (hn : 1 ≤ n)
+    (h256 : radix % 256 = radix) (hB : radix % B w = radix) (hr : 2 ≤ radix) (hp : 1 ≤ p)
+    (hbase : radix ^ p < B w) :
+    ∀ (f : Nat) (rest out : List Nat), WF w n out → p ∣ rest.length → rest.length ≤ f →
+    (hasInvalid fs radix rest = false →
+      chunkLoop w fs radix (radix ^ p) p f rest out = .ok (
+        if horner radix (U w out) (digs fs rest) < M w n
+        then .ok (ofNat w n (horner radix (U w out) (digs fs rest))) else .err .posOverflow)) ∧
+    (hasInvalid fs radix rest = true →
+      ∃ k, chunkLoop w fs radix (radix ^ p) p f rest out = .ok (.err k) ∧
+        ((U w out + 1) * radix ^ rest.length ≤ M w n → k = .invalidDigit)) := by
+  intro f
+  induction f with
+  | zero =>
+    intro rest out ho _ hf
+    have : rest = [] := List.eq_nil_of_length_eq_zero (by omega)
+    subst this
+    rw [chunkLoop_nil]
+    constructor
+    · intro _; simp [U_lt ho, ← eq_ofNat ho]
+    · intro h; simp [hasInvalid] at h
+  | succ f ih =>
+    intro rest out ho hdvd hf
+    by_cases hne : rest = []
+    · subst hne
+      rw [chunkLoop_nil]
+      constructor
+      · intro _; simp [U_lt ho, ← eq_ofNat ho]
+      · intro h; simp [hasInvalid] at h
+    have hLpos : 0 < rest.length := List.length_pos_iff.mpr hne
+    have hpL : p ≤ rest.length := Nat.le_of_dvd hLpos hdvd
+    have hdvd' : p ∣ (rest.drop p).length := by
+      rw [List.length_drop]; exact (Nat.dvd_sub_iff_right hpL (Nat.dvd_refl p)).mpr hdvd
+    have hf' : (rest.drop p).length ≤ f := by rw [List.length_drop]; omega
+    have htl : (rest.take p).length = p := by rw [List.length_take]; omega
+    rw [chunkLoop_succ _ _ _ _ _ _ _ _ hne]
+    obtain ⟨m1, m2, m3⟩ := mulDigitLoop_spec hbase n out 0 ho (B_pos w)
+    have hacc := accLoop_spec (fs := fs) h256 hB (rest.take p) 0 (by rw [htl]; omega)
+    have hinv := hasInvalid_take_drop fs radix p rest
+    have hsplit : horner radix (U w out) (digs fs rest)
+        = horner radix (U w out * radix ^ p + valueOf radix (digs fs (rest.take p)))
+            (digs fs (rest.drop p)) := by
+      conv => lhs; rw [← List.take_append_drop p rest, digs_append, horner_append, horner_eq]
+      simp [htl]
+    have hnn : valueOf radix (digs fs (rest.take p)) < radix ^ p → True := fun _ => trivial
+    rw [ho.1]
+    generalize hm : mulDigitLoop w (radix ^ p) out 0 = m at *
+    have hum := U_lt m1
+    have hMpos := M_pos w n
+    constructor
+    · -- all bytes valid
+      intro hv
+      rw [hv] at hinv
+      have hv1 : hasInvalid fs radix (rest.take p) = false := by
+        cases h : hasInvalid fs radix (rest.take p) <;> simp_all
+      have hv2 : hasInvalid fs radix (rest.drop p) = false := by
+        cases h : hasInvalid fs radix (rest.drop p) <;> simp_all
+      have hlt : valueOf radix (digs fs (rest.take p)) < radix ^ p := by
+        have := valueOf_lt (r := radix) (digs fs (rest.take p))
+          (by have := hasInvalid_false_iff.mp hv1; rwa [h256] at this)
+        rwa [digs_length, htl] at this
+      have hge : U w out * radix ^ p + valueOf radix (digs fs (rest.take p))
+          ≤ horner radix (U w out) (digs fs rest) := by
+        rw [hsplit, horner_eq]
+        have : 0 < radix ^ (digs fs (rest.drop p)).length := Nat.pow_pos (by omega)
+        exact Nat.le_trans (Nat.le_mul_of_pos_right _ this) (Nat.le_add_right _ _)
+      by_cases hc : m.2 ≠ 0
+      · rw [if_pos hc, hv1]
+        have : M w n ≤ U w out * radix ^ p := by
+          have : M w n * 1 ≤ M w n * m.2 := Nat.mul_le_mul_left _ (by omega)
+          omega
+        simp only [Bool.false_eq_true, if_false]
+        rw [if_neg (by omega)]
+      · rw [if_neg hc]
+        have hc0 : m.2 = 0 := by omega
+        rw [hc0] at m3
+        rw [hacc, hv1]
+        simp only [Bool.false_eq_true, if_false]
+        rw [← valueOf_eq_horner]
+        obtain ⟨a1, a2⟩ := checkedAdd_nat m1 (WF_fromDigit (w := w) hn (Nat.lt_trans hlt hbase))
+        rw [U_fromDigit _ hn] at a1 a2
+        by_cases hfit : U w m.1 + valueOf radix (digs fs (rest.take p)) < M w n
+        · obtain ⟨o, e1, e2, e3⟩ := a1 hfit
+          rw [e1]
+          simp only
+          rw [(ih (rest.drop p) o e2 hdvd' hf').1 hv2, hsplit, e3]
+          congr 3 <;> omega
+        · rw [a2 (by omega)]
+          simp only
+          rw [if_neg (by omega)]
+    · -- some byte invalid
+      intro hv
+      rw [hv] at hinv
+      by_cases hc : m.2 ≠ 0
+      · rw [if_pos hc]
+        have hcontra : (U w out + 1) * radix ^ rest.length ≤ M w n → False := by
+          intro hs
+          have h1 : radix ^ p ≤ radix ^ rest.length := Nat.pow_le_pow_right (by omega) hpL
+          have h2 : U w out * radix ^ p ≤ U w out * radix ^ rest.length := Nat.mul_le_mul_left _ h1
+          have h3 : 0 < radix ^ rest.length := Nat.pow_pos (by omega)
+          have h4 : M w n * 1 ≤ M w n * m.2 := Nat.mul_le_mul_left _ (by omega)
+          rw [Nat.add_mul] at hs
+          omega
+        cases hasInvalid fs radix (rest.take p)
+        · exact ⟨_, rfl, fun hs => (hcontra hs).elim⟩
+        · exact ⟨_, rfl, fun _ => rfl⟩
+      · rw [if_neg hc]
+        have hc0 : m.2 = 0 := by omega
+        rw [hc0] at m3
+        rw [hacc]
+        cases hv1 : hasInvalid fs radix (rest.take p)
+        · have hv2 : hasInvalid fs radix (rest.drop p) = true := by simp_all
+          simp only [Bool.false_eq_true, if_false]
+          rw [← valueOf_eq_horner]
+          have hlt : valueOf radix (digs fs (rest.take p)) < radix ^ p := by
+            have := valueOf_lt (r := radix) (digs fs (rest.take p))
+              (by have := hasInvalid_false_iff.mp hv1; rwa [h256] at this)
+            rwa [digs_length, htl] at this
+          obtain ⟨a1, a2⟩ := checkedAdd_nat m1 (WF_fromDigit (w := w) hn (Nat.lt_trans hlt hbase))
+          rw [U_fromDigit _ hn] at a1 a2
+          have hbound : (U w out + 1) * radix ^ rest.length ≤ M w n →
+              (U w m.1 + valueOf radix (digs fs (rest.take p)) + 1) * radix ^ (rest.length - p)
+                ≤ M w n := by
+            intro hs
+            rw [pow_split hpL] at hs
+            refine Nat.le_trans (Nat.mul_le_mul_right _ ?_) (by rw [← Nat.mul_assoc] at hs; exact hs)
+            rw [Nat.add_mul]; omega
+          by_cases hfit : U w m.1 + valueOf radix (digs fs (rest.take p)) < M w n
+          · obtain ⟨o, e1, e2, e3⟩ := a1 hfit
+            rw [e1]
+            simp only
+            obtain ⟨k, k1, k2⟩ := (ih (rest.drop p) o e2 hdvd' hf').2 hv2
+            refine ⟨k, k1, fun hs => k2 ?_⟩
+            rw [e3, List.length_drop]; exact hbound hs
+          · rw [a2 (by omega)]
+            refine ⟨_, rfl, fun hs => ?_⟩
+            exfalso
+            have := hbound hs
+            have h3 : 0 < radix ^ (rest.length - p) := Nat.pow_pos (by omega)
+            have := Nat.le_trans (Nat.le_mul_of_pos_right _ h3) this
+            omega
+        · exact ⟨_, rfl, fun _ => rfl⟩
+
 end Radix
 end Bnum
